@@ -47,6 +47,22 @@ Proof.
   apply bind_ok in H. destruct H as [so [Hs H]]. eauto.
 Qed.
 
+Theorem ers_sync_inv_defaulted : forall sn ch pl e,
+  ers_sync sn ch = Ok pl -> sn_eds sn = Some e -> is_defaulted e = true ->
+  pl_status pl = None \/
+  exists freq cx so, st_freq (e_strategy e) = Some freq /\ sync_gate sn freq = None /\
+    build_ctx sn e freq = Ok cx /\ strategy_of sn ch cx = Ok so /\ finish_sync sn cx so = Ok pl.
+Proof.
+  intros sn ch pl e H He Hd. unfold ers_sync in H.
+  destruct (N.eqb (r_owner (sn_rs sn)) no_name); [discriminate|].
+  rewrite He, Hd in H. cbn [negb] in H. unfold sync_body in H.
+  destruct (st_freq (e_strategy e)) as [freq|] eqn:Ef; [|discriminate].
+  destruct (sync_gate sn freq) as [d|] eqn:Eg.
+  - injection H as <-. left; reflexivity.
+  - apply bind_ok in H. destruct H as [cx [Hc H]]. apply bind_ok in H. destruct H as [so [Hs H]].
+    right. exists freq, cx, so. auto.
+Qed.
+
 (** ** The context *)
 Lemma build_ctx_fields : forall sn e freq cx, build_ctx sn e freq = Ok cx ->
   cx_eds cx = e /\ cx_freq cx = freq /\ cx_role cx = role_of e (r_name (sn_rs sn)) /\
